@@ -323,6 +323,7 @@ func (rc *raftNode) replayWAL(snapshot *raftpb.Snapshot, forceStandalone bool) e
 	if snapshot != nil {
 		rc.raftStorage.ApplySnapshot(*snapshot)
 	}
+	reconcileHardStateWithSnapshot(&st, snapshot)
 	rc.raftStorage.SetHardState(st)
 	// append to storage so raft starts at the right place in log
 	rc.raftStorage.Append(ents)
@@ -335,6 +336,25 @@ func (rc *raftNode) replayWAL(snapshot *raftpb.Snapshot, forceStandalone bool) e
 	}
 	rc.Infof("replaying WAL (%v) at lastIndex : %v", len(ents), rc.lastIndex)
 	return nil
+}
+
+// reconcileHardStateWithSnapshot: the snapshot file and its WAL marker are written before the
+// hard state of the same Ready (persistRaftState). If the process dies in between, the stored
+// hard state is older than the snapshot and raft refuses to load it ("state.commit N is out of
+// range") on every restart. A snapshot only covers committed entries, and a replica that holds
+// an entry of a term has seen that term, so commit and term can be raised to the snapshot's;
+// the vote of a term that was never persisted was never sent either.
+func reconcileHardStateWithSnapshot(st *raftpb.HardState, snapshot *raftpb.Snapshot) {
+	if snapshot == nil || raft.IsEmptySnap(*snapshot) {
+		return
+	}
+	if st.Commit < snapshot.Metadata.Index {
+		st.Commit = snapshot.Metadata.Index
+	}
+	if st.Term < snapshot.Metadata.Term {
+		st.Term = snapshot.Metadata.Term
+		st.Vote = 0
+	}
 }
 
 func (rc *raftNode) IsReplayFinished() bool {
